@@ -436,7 +436,10 @@ theorem fromGeopandas_eq (f : GpdFrameR) (fs fe : String) (hgeo : "geometry" ∉
 
 theorem tiToFastkml_eq (a b : Int) : SrcIo.tiToFastkml (a, b) = .ok (toKTime (some (a, b))) := by
   unfold SrcIo.tiToFastkml toKTime
-  by_cases h : a = b <;> simp [h, pure, Except.pure]
+  by_cases h : a = b
+  · subst h; simp [pure, Except.pure]
+  · have h' : ¬ b = a := fun e => h e.symm
+    simp [h, h', pure, Except.pure]
 
 theorem toFastkmlPlacemark_eq (s : Shape) : SrcIo.toFastkmlPlacemark s = toPlacemark s := by
   unfold SrcIo.toFastkmlPlacemark toPlacemark giOrErr
